@@ -5,8 +5,11 @@
       recomputes the exact diffusivity and compares the transported L0vv returned by Lij (for arbitrary
       solute data, which must not influence it).
 (ii)  tracer limit (shared with C06): Lsv = -L0vv, L1vv = 0 with the exact L0vv of (i).
-General interacting inputs with dissociation contain irrational infinite-lattice sums that no finite exact
-model produces; they are constrained relationally by C03-C10, C24-C26 (see DESIGN.md, C01).
+(iii) bound-pair limit: with dissociation forbidden the pair chain is finite; TLC verifies it exactly.
+(iv)  general interacting data: the one-solute/one-vacancy chain on periodic n^dim tori (vf/chain.py), three
+      sizes Richardson-extrapolated in n^-dim, n^-(dim+2); Lss, Lsv and L1vv are compared by Check_Rel with the
+      oracle's measured resolution (3e-4 / 3e-3 of the largest coefficient; cases the oracle does not resolve
+      are not judged).
 """
 import numpy as np
 from fractions import Fraction
@@ -89,6 +92,8 @@ def run(ctx):
                 metas.append(("boundpair|%s|%s|N%d#%d" % (which, name, nth, rep),
                               "%s in the bound-pair limit on %s Nthermo=%d, levels %s" % (which, name, nth, lv),
                               {"world": name, "Nthermo": nth, "data": {"eneL": [0, 1], "eneTL": [0, 1]}, "levels": lv}))
+    # ---- (iv) general interacting data: the periodic one-solute/one-vacancy chain, Richardson-extrapolated
+    chain_cases(ctx, quick, rng, rcases, rmetas)
     fails, infos, results = tlc.run_cases("Check_C02", cases, shards=8 if quick else 14, timeout=2400)
     for r in results:
         ctx.add_model(r)
@@ -105,6 +110,66 @@ def run(ctx):
     ctx.traces += len(cases)
     rel.run_rel(ctx, rcases, rmetas, shards=4)
     ctx.sample({"case": metas[0][0], "N": cases[0]["N"], "den": cases[0]["den"]})
+
+
+# ---------------------------------------------------------------------------------- periodic pair chain
+
+CHAIN_WORLDS_QUICK = [("fcc", 0, 1, 1), ("square", 0, 1, 1), ("honeycomb", 0, 1, 1), ("wurtzite", 0, 2, 1),
+                      ("polarrect", 1, 2, 1), ("bcc", 0, 1, 1)]
+CHAIN_WORLDS_MORE = [("hcp", 0, 2, 1), ("hex2d", 0, 1, 1), ("b2", 0, 1, 1), ("sc", 0, 1, 1), ("diamond", 0, 1, 1),
+                     ("rect2site", 0, 2, 1), ("tet2", 0, 2, 1), ("square", 0, 1, 2), ("hex2d", 0, 1, 2),
+                     ("fcc", 0, 1, 2), ("wurtzite", 0, 1, 1), ("polarrect", 1, 2, 2)]
+
+
+def chain_sizes(v):
+    """Three torus sizes: large enough for the kinetic shell, small enough for a dense solve."""
+    N = len(v.crys.basis[v.chem])
+    rmax = max(int(np.max(np.abs(PS.R))) for PS in v.calc.kinetic.states)
+    lo = 2 * rmax + 2
+    if v.crys.dim == 2:
+        base = (10, 14, 18) if N * N * 18 * 18 <= 3000 else (8, 12, 16)
+    else:
+        base = (6, 8, 10) if N * N * 1000 <= 4100 else (5, 6, 7)
+    shift = max(0, lo - base[0])
+    return tuple(b + shift for b in base)
+
+
+def chain_cases(ctx, quick, rng, rcases, rmetas):
+    from .. import chain
+    worlds_ = CHAIN_WORLDS_QUICK if quick else CHAIN_WORLDS_QUICK + CHAIN_WORLDS_MORE
+    for name, chem, shell, nth in worlds_:
+        v = calc.vacancy(name, chem, shell, nth, rng)
+        v.chem = chem
+        sizes = chain_sizes(v)
+        for rep in range(2 if quick else 4):
+            d = calc.vacancy_data(v, rng, 0, 2)
+            if rep % 2 == 1:
+                # stronger, symmetry-distinct exchange and association/dissociation rates
+                d["eneT2"] = d["eneT2"] - np.array([k * calc.LN2 for k in calc.levels(rng, len(d["eneT2"]), 0, 2)])
+                d["eneT1"] = d["eneT1"] + np.array([k * calc.LN2 for k in calc.levels(rng, len(d["eneT1"]), 0, 2)])
+            args = v.calc.preene2betafree(1.0, **d)
+            L = v.calc.Lij(*args)
+            best, prev, info = chain.extrapolate(v.calc, v.crys, chem, args, sizes)
+            scale = max(float(np.max(np.abs(T))) for T in L)
+            tol = {"Lss": 3e-4, "Lsv": 3e-4, "L1vv": 3e-3}
+            tens, asserts = {}, []
+            resolved = True
+            for k, nm in enumerate(("Lss", "Lsv", "L1vv")):
+                # the oracle's own resolution: the last two extrapolation orders must agree well within tolerance
+                if float(np.max(np.abs(best[k] - prev[k]))) > 0.3 * tol[nm] * scale:
+                    resolved = False
+                tens[nm] = rel.to_latt(v.crys, L[k + 1])
+                tens[nm + "_chain"] = rel.to_latt(v.crys, best[k])
+                asserts.append(rel.a_zero("%s_equals_exact_pair_chain" % nm, [(1, nm), (-1, nm + "_chain")], tol[nm]))
+            if not resolved:
+                ctx.case("chain|%s|N%d#%d-unresolved" % (name, nth, rep), nontrivial=False)
+                continue
+            rcases.append(rel.make_case(v.w, tens, asserts, usegroup=False, scale=scale))
+            rmetas.append(("chain|%s|N%d#%d" % (name, nth, rep),
+                           "Lss/Lsv/L1vv vs the periodic pair chain (tori %s, %d states, Richardson) on %s Nthermo=%d" % (
+                               sizes, info["states"], name, nth),
+                           {"world": name, "Nthermo": nth, "sizes": list(sizes),
+                            "data": {k_: np.asarray(v_).tolist() for k_, v_ in d.items()}}, True))
 
 
 # ---------------------------------------------------------------------------------- bound-pair limit
